@@ -1643,4 +1643,96 @@ theorem removePrefixRef_suffix (f : Nat) (p q : Str) : removePrefixRef f p q <:+
       · exact (ih _ _).trans (iterRef_suffix p)
       · exact List.suffix_refl _
 
+/-! ## creader -/
+
+theorem rewindCR_eq (pre rest rb : Str) :
+    rewindCR (pre ++ rb.reverse ++ rest) pre.length (pre.length + rb.length)
+      = some (pre.length + (rb.dropWhile (· == CR)).length) := by
+  induction rb generalizing rest with
+  | nil =>
+    cases pre with
+    | nil => simp [rewindCR]
+    | cons a as => simp [rewindCR]
+  | cons x xs ih =>
+    have hidx : (pre ++ (x :: xs).reverse ++ rest)[pre.length + xs.length]? = some x := by
+      simp [List.getElem?_append_left, List.getElem?_append_right]
+    have : pre.length + (x :: xs).length = (pre.length + xs.length) + 1 := by simp; omega
+    rw [this, rewindCR]
+    have hne : ¬ (pre.length + xs.length + 1 = pre.length) := by omega
+    simp only [hne, ↓reduceIte, hidx, List.dropWhile_cons]
+    split
+    · have := ih (x :: rest)
+      simpa [List.append_assoc] using this
+    · simp; omega
+
+theorem creaderReadline_eq (mem : Str) (cursor : Nat) (h : cursor ≤ mem.length) :
+    creaderReadline mem cursor
+      = some (if (mem.drop cursor).isEmpty then (-1, cursor, cursor)
+              else (((lineRef (mem.drop cursor)).1 : Int), cursor, cursor + (lineRef (mem.drop cursor)).2)) := by
+  unfold creaderReadline lineRef
+  simp only
+  split
+  · rfl
+  · rename_i hne
+    have hmem : mem = mem.take cursor ++ mem.drop cursor := (List.take_append_drop cursor mem).symm
+    have hpl : (mem.take cursor).length = cursor := by simp [List.length_take]; omega
+    generalize hs : mem.drop cursor = s at *
+    generalize hpre : mem.take cursor = pre at *
+    have hsplit := @List.takeWhile_append_dropWhile _ (fun c => c != NL && c != NUL) s
+    generalize hb : s.takeWhile (fun c => c != NL && c != NUL) = body at *
+    generalize hr : s.dropWhile (fun c => c != NL && c != NUL) = rest at *
+    have hsl : s.length = body.length + rest.length := by rw [← hsplit]; simp
+    have hml : mem.length = cursor + s.length := by rw [hmem]; simp [hpl]
+    have hit : mem.length - rest.length = cursor + body.length := by omega
+    rw [hit]
+    cases rest with
+    | nil =>
+      simp only [List.isEmpty_nil, Bool.not_true, Bool.false_eq_true, ↓reduceIte]
+      have : body.length = s.length := by simp at hsl; omega
+      simp [this]
+      omega
+    | cons x xs =>
+      have : ¬ body.length = s.length := by simp at hsl; omega
+      simp only [List.isEmpty_cons, Bool.not_false, ↓reduceIte, this]
+      have hrw := rewindCR_eq pre (x :: xs) body.reverse
+      simp only [List.reverse_reverse, List.length_reverse, hpl] at hrw
+      have hm2 : mem = pre ++ body ++ x :: xs := by rw [hmem, ← hsplit, List.append_assoc]
+      rw [← hm2] at hrw
+      rw [hrw]
+      simp
+      omega
+
+
+theorem lineRef_used (s : Str) (hs : s ≠ []) : 1 ≤ (lineRef s).2 ∧ (lineRef s).2 ≤ s.length := by
+  unfold lineRef
+  have hsplit := @List.takeWhile_append_dropWhile _ (fun c => c != NL && c != NUL) s
+  have hle : (s.takeWhile (fun c => c != NL && c != NUL)).length ≤ s.length := by
+    have := congrArg List.length hsplit
+    simp only [List.length_append] at this
+    omega
+  have hpos : 0 < s.length := by cases s with | nil => exact absurd rfl hs | cons a as => simp
+  simp only
+  split
+  · rename_i h; simp only [h]; omega
+  · simp only; omega
+
+theorem creaderAll_ends (mem : Str) (f cursor : Nat) (hc : cursor ≤ mem.length) (hf : mem.length - cursor + 1 ≤ f) :
+    ∃ l, creaderAll mem f cursor = some (l, true) := by
+  induction f generalizing cursor with
+  | zero => omega
+  | succ f ih =>
+    unfold creaderAll
+    rw [creaderReadline_eq mem cursor hc]
+    by_cases he : (mem.drop cursor).isEmpty = true
+    · simp [he]
+    · have hne : mem.drop cursor ≠ [] := by simpa using he
+      have ⟨h1, h2⟩ := lineRef_used _ hne
+      simp only [List.length_drop] at h2
+      simp only [he, Bool.false_eq_true, ↓reduceIte]
+      have hnn : ¬ (((lineRef (mem.drop cursor)).1 : Int) < 0) := by omega
+      simp only [hnn, ↓reduceIte]
+      obtain ⟨l, hl⟩ := ih (cursor + (lineRef (mem.drop cursor)).2) (by omega) (by omega)
+      rw [hl]
+      exact ⟨_, rfl⟩
+
 end Igris.C19
